@@ -279,7 +279,8 @@ func c02Callback(r *core.Run, idx int, rng *rand.Rand) {
 		wantKind = "redirect"
 	}
 	if d.Msg == nil {
-		viol("no_message", fmt.Sprintf("status %d kind %s", d.Status, d.Kind))
+		// nothing is handed to the browser for delivery (a plain error page): no target to judge
+		r.Count("callback_without_message", 1)
 		return
 	}
 	r.Count("callback_replies_"+d.Kind, 1)
